@@ -473,6 +473,11 @@ def r3_no_rng(ctx):
         ctx.obs.append(o)
 
 
+def _c02_wiring(sub):
+    from rules import c02
+    return c02.r8_transfer_wiring(sub)
+
+
 def r5_exact_accumulation(ctx):
     """Reordering, splitting and merging ballots leave tallies unchanged only if weights and
     accumulators are exact rationals (Fraction addition is associative, float addition is not; a
@@ -484,7 +489,10 @@ def r5_exact_accumulation(ctx):
                      # equal scores are grouped exactly (a float or truthiness key splits / merges groups by value or by name order)
                      (c04.r5_grouping_direction, lambda o: o.function.endswith("score_dict_to_ranking")),
                      # candidates are removed by identity, never by substring of their name (renaming would change outcomes)
-                     (c12.r1_filter_polarity, lambda o: "wrapped" in o.construct)):
+                     (c12.r1_filter_polarity, lambda o: "wrapped" in o.construct),
+                     # every elected candidate's pile is transferred once, from the round's own profile, and everybody else's carried
+                     # over: otherwise co-elected candidates are processed in set order and the result depends on it
+                     (_c02_wiring, lambda o: "transfer" in o.construct or "carried" in o.construct)):
         sub = type(ctx)(ctx.prog, ctx.prop, ctx.tier)
         fn(sub)
         for o in sub.obs:
